@@ -176,7 +176,7 @@ prop(
     "C06",
     level="proof",
     design_ref="DESIGN.md section 3, C06",
-    groups=[(["./plugin/input/file", "./pipeline"], r"^(\(\*worker\)\.work|\(\*jobProvider\)\.(initJobOffset|maintenanceJob|truncateJob))$")],
+    groups=[(["./plugin/input/file", "./pipeline"], r"^(\(\*worker\)\.work|\(\*Job\)\.seek|\(\*jobProvider\)\.(initJobOffset|maintenanceJob|truncateJob|tryResumeJobAndUnlock|continueJob|doneJob|checkFileWasTruncated))$")],
     claim=(
         "The real (*worker).work (170 lines, five loops) verified in place, for all file contents, all read-buffer sizes >= 1, all max_event_size / cut_off settings, every split of the content into reads of any size "
         "(Read may return any 0 <= n <= len(buf)), every resume offset and any number of rounds (job invariant assumed at hand-out, proved at hand-back): "
@@ -456,7 +456,7 @@ prop(
     "C07",
     level="other",
     design_ref="DESIGN.md section 3, C07",
-    groups=[(["./plugin/input/file"], r"^(\(\*offsetDB\)\.(save|parseLine|parseOptionalLine|parseStreams|parseOne|load)|safeSubstring)$"),
+    groups=[(["./plugin/input/file"], r"^(\(\*offsetDB\)\.(save|snapshotJobs|parse|parseLine|parseOptionalLine|parseStreams|parseOne|load)|safeSubstring|\(\*jobProvider\)\.saveOffsetsCyclic)$"),
             (["./offset"], r"^(\(\*Offset\)\.(Save|saveToTmp|Load)|NewOffset|\(\*yamlValue\)\.(Load|Save))$")],
     canaries=[("./plugin/input/file", "replay/C07/zz_replay_c07_test.go", "TestVerifReplayC07"),
               ("./plugin/input/file", "replay/C07/zz_empty_stream_test.go", "TestVerifOffsetsEmptyStreamNameRoundTrip"),
@@ -482,7 +482,7 @@ prop(
     "C03",
     level="other",
     design_ref="DESIGN.md section 3, C03",
-    groups=[(["./plugin/input/file", "./pipeline"], r"^(\(\*Plugin\)\.PassEvent|\(\*jobProvider\)\.(commit|truncateJob|initJobOffset|addJob|maintenanceJob)|\(\*worker\)\.(processEOF|work)|\(\*Pipeline\)\.(streamEvent|In)|sourceIDByStat)$")],
+    groups=[(["./plugin/input/file", "./pipeline"], r"^(\(\*Plugin\)\.PassEvent|\(\*Job\)\.seek|\(\*jobProvider\)\.(commit|truncateJob|initJobOffset|addJob|maintenanceJob|refreshFile|checkFileWasTruncated|tryResumeJobAndUnlock|continueJob|doneJob|maintenanceJobs|deleteJobAndUnlock|initEofInfo|saveOffsetsCyclic)|\(\*eofInfo\)\.(setUnixNanoTimestamp|setOffset)|\(\*offsetDB\)\.parse|getMimeType|\(\*worker\)\.(processEOF|work)|\(\*Pipeline\)\.(streamEvent|In)|sourceIDByStat)$")],
     canaries=[("./plugin/input/file", "replay/C03/zz_truncation_tail_test.go", "TestVerifTruncationDropsStaleTail"),
               ("./plugin/input/file", "replay/C03/zz_rejected_last_line_truncation_test.go", "TestVerifTruncationAfterRejectedLastLine"),
               ("./plugin/input/file", "replay/C03/zz_empty_stream_prefilter_test.go", "TestVerifEmptyStreamPrefilter")],
